@@ -320,6 +320,85 @@ func TestVerifC13(t *testing.T) {
 		}
 	}
 
+	// ---- "a batch returns with that call marked failed" also when the rest of the batch needed another round: one call's own
+	// context ends while its server is silent; another call, on another server, is answered retry-later once and then
+	// succeeds. The batch comes back without waiting for the silent server, the first call carries its context's error, the
+	// second its answer - and the batch as a whole is NOT reported successful.
+	for _, kind := range kinds {
+		name := "batch-call-own-context-ends-while-another-call-is-retried/" + kind
+		verifsim.Bubble(t, func(t *testing.T) {
+			tr := &verifsim.Trace{}
+			cl := verifsim.NewCluster(tr)
+			for _, a := range []string{"ms", "rs1", "rs2"} {
+				cl.AddServer(a)
+			}
+			cl.CreateTable("t", [][]byte{[]byte("m")}, []string{"rs1", "rs2"})
+			c := newSimClient(cl, RpcQueueSize(3))
+			for _, k := range []string{"a0", "n0"} {
+				g, _ := hrpc.NewGet(context.Background(), []byte("t"), []byte(k))
+				c.Get(g)
+			}
+			synctest.Wait()
+			var once atomic.Bool
+			cl.Lock()
+			cl.Rules = append(cl.Rules, func(_ *verifsim.Cluster, rs *verifsim.RS, sc *verifsim.ServerConn, req *verifsim.Request, rn []byte) *verifsim.Directive {
+				if rs.Addr == "rs1" && !verifsim.IsProbe(req) {
+					return &verifsim.Directive{Silent: true}
+				}
+				return nil
+			})
+			cl.ActionHook = func(rs *verifsim.RS, r *verifsim.Region, op string, row []byte) string {
+				if rs.Addr == "rs2" && string(row) == "n1" && once.CompareAndSwap(false, true) {
+					return verifsim.ExcTooBusy
+				}
+				return ""
+			}
+			cl.Unlock()
+			var own context.Context
+			var cancelOwn context.CancelFunc
+			if kind == "deadline" {
+				own, cancelOwn = context.WithTimeout(context.Background(), 5*time.Millisecond)
+			} else {
+				own, cancelOwn = context.WithCancel(context.Background())
+			}
+			defer cancelOwn()
+			vals := map[string]map[string][]byte{"f": {"q": []byte("v")}}
+			p1, _ := hrpc.NewPut(own, []byte("t"), []byte("a1"), vals)
+			p2, _ := hrpc.NewPut(context.Background(), []byte("t"), []byte("n1"), vals)
+			done := make(chan struct{})
+			var res []hrpc.RPCResult
+			var allOK bool
+			go func() { res, allOK = c.SendBatch(context.Background(), []hrpc.Call{p1, p2}); close(done) }()
+			time.Sleep(5 * time.Millisecond) // (less than the first back-off: the second call is waiting to be sent again)
+			synctest.Wait()
+			cancelOwn()
+			time.Sleep(time.Second)
+			synctest.Wait()
+			rep.Scenarios++
+			rep.Distinct++
+			select {
+			case <-done:
+				switch {
+				case len(res) != 2 || res[0].Error == nil || !(errors.Is(res[0].Error, context.Canceled) || errors.Is(res[0].Error, context.DeadlineExceeded)):
+					rep.bad("cancel-wrong-result", "%s: the call whose context ended carries %v, want its context's error", name, res)
+				case res[1].Error != nil:
+					rep.bad("cancel-wrong-result", "%s: the other call (retried once, then answered) carries %v", name, res[1].Error)
+				case allOK:
+					rep.bad("cancel-wrong-result", "%s: the batch is reported successful (allOK=true) although the call whose context ended is marked failed (%v)", name, res[0].Error)
+				}
+			default:
+				rep.bad("cancel-ignored:batch-call-own-context:silent-server", "%s: the batch is still blocked 1 s after the context of its call to the silent server ended", name)
+			}
+			cl.Lock()
+			cl.Rules = nil
+			cl.Unlock()
+			time.Sleep(3 * time.Minute)
+			c.Close()
+			time.Sleep(2 * time.Minute)
+			synctest.Wait()
+		})
+	}
+
 	// ---- busy send queue with another caller waiting in front (REAL time, outside a bubble: a wait that is not a channel
 	// operation - a lock - would not let a bubble's clock run). The batcher is stuck in a write; a call with a live context
 	// waits for the queue; behind it the call in question waits too. Ending ITS context must end ITS wait, whoever else waits.
